@@ -173,6 +173,40 @@ func evalConstWith(v ssa.Value, fn *ssa.Function, bind map[int]constant.Value, d
 			return nil
 		}
 		return x.Value
+	case *ssa.Extract:
+		// found / not found of a lookup with a constant key in a map the function writes as a literal with constant keys
+		if lk, ok := x.Tuple.(*ssa.Lookup); ok && lk.CommaOk {
+			if mm, ok := lk.X.(*ssa.MakeMap); ok && mm.Referrers() != nil {
+				key := evalConstWith(lk.Index, fn, bind, depth+1)
+				if key == nil {
+					return nil
+				}
+				found := false
+				var val ssa.Value
+				for _, ref := range *mm.Referrers() {
+					switch y := ref.(type) {
+					case *ssa.MapUpdate:
+						k := evalConstWith(y.Key, fn, bind, depth+1)
+						if k == nil {
+							return nil
+						}
+						if constant.Compare(k, token.EQL, key) {
+							found, val = true, y.Value
+						}
+					case *ssa.Lookup, *ssa.DebugRef:
+					default:
+						return nil
+					}
+				}
+				if x.Index == 1 {
+					return constant.MakeBool(found)
+				}
+				if found {
+					return evalConstWith(val, fn, bind, depth+1)
+				}
+			}
+		}
+		return nil
 	case *ssa.Parameter:
 		for i, p := range fn.Params {
 			if p == x {
@@ -369,6 +403,9 @@ func (a *effAnalysis) instr(ins ssa.Instruction) {
 		if x.Op == token.MUL {
 			if a.structCopyReads(x) {
 				break
+			}
+			if a.onlyUnreadMapEntry(x) {
+				break // the value only fills an entry of a local map that no lookup of this specialisation can reach
 			}
 			a.read(a.addrLoc(x.X), x.Pos())
 		}
@@ -1299,6 +1336,47 @@ func (a *effAnalysis) structCopyReads(x *ssa.UnOp) bool {
 			l.Path = o.Path + "." + fld
 		}
 		a.read(l, x.Pos())
+	}
+	return true
+}
+
+
+// onlyUnreadMapEntry: the loaded value is used for nothing but the value of one entry m[k] = v of a map the
+// function builds itself (a literal), k a constant, and every lookup in that map has — under the constant
+// bindings of this specialisation — a constant key different from k; the map does not escape. Such a load is
+// made, but nothing the function computes can depend on it.
+func (a *effAnalysis) onlyUnreadMapEntry(x *ssa.UnOp) bool {
+	refs := x.Referrers()
+	if refs == nil || len(*refs) != 1 {
+		return false
+	}
+	up, ok := (*refs)[0].(*ssa.MapUpdate)
+	if !ok || up.Value != ssa.Value(x) {
+		return false
+	}
+	mm, ok := up.Map.(*ssa.MakeMap)
+	if !ok || mm.Referrers() == nil {
+		return false
+	}
+	kc := a.evalConst(up.Key)
+	if kc == nil {
+		return false
+	}
+	for _, ref := range *mm.Referrers() {
+		switch y := ref.(type) {
+		case *ssa.MapUpdate:
+			if y.Map != ssa.Value(mm) {
+				return false
+			}
+		case *ssa.Lookup:
+			lk := a.evalConst(y.Index)
+			if lk == nil || constant.Compare(lk, token.EQL, kc) {
+				return false
+			}
+		case *ssa.DebugRef:
+		default:
+			return false // ranged over, passed on, returned: anything may read it
+		}
 	}
 	return true
 }
